@@ -73,7 +73,7 @@ def gen_cases(rng, tier):
         classes[cls] = classes.get(cls, 0) + 1
 
     bvals = boundary_ints()
-    nrand = 15000 if tier == "quick" else 400000
+    nrand = 40000 if tier == "quick" else 600000
     # integer sources of 32/64 bits: boundary neighbourhoods x every target (12), conv and policy
     for S in ("i32", "u32", "i64", "u64"):
         lo, hi = N.RANGE[S]
